@@ -147,10 +147,35 @@ def check(run, replay_case=None):
                 wk = names.kind_of(wn, wenv)
                 rk = names.kind_of(rn, renv)
                 # enumerated pairs are seed independent: name the pair, so that a verdict that newly becomes unsound is a new signature
-                where = 'pair=%s' % cid if cid.startswith('e') else 'writer=%s reader=%s' % (wk, rk)
+                where = 'pair=%s>%s' % (kdesc(c['writer']), kdesc(c['reader'])) if cid.startswith('e') else 'random-pair'
                 run.violation('full-but-read-fails %s error=%s' % (where, it['err'].get('kind')),
                               'can_read says Full, yet a value writable with W fails to read with R', dict(case, value=v), observed=it['err'])
                 break
+
+
+def kdesc(j):
+    """short, content-based description of an enumerated schema (stable across tiers and enumeration sizes)"""
+    if isinstance(j, str):
+        return j
+    if isinstance(j, list):
+        return 'u[%s]' % ','.join(kdesc(b) for b in j)
+    t = j.get('type')
+    lt = j.get('logicalType')
+    if t == 'record':
+        return 'r{%s}' % ','.join('%s:%s%s' % (f['name'], kdesc(f['type']), '=d' if 'default' in f else '') for f in j.get('fields', []))
+    if t == 'enum':
+        return 'e(%s%s)' % ('|'.join(j.get('symbols', [])), ';d' if 'default' in j else '')
+    if t == 'fixed':
+        base = 'fx%s' % j.get('size')
+    elif t == 'array':
+        return 'a<%s>' % kdesc(j.get('items'))
+    elif t == 'map':
+        return 'm<%s>' % kdesc(j.get('values'))
+    else:
+        base = kdesc(t)
+    if lt:
+        return '%s@%s' % (lt, base) + ('(%s,%s)' % (j.get('precision'), j.get('scale', 0)) if lt == 'decimal' else '')
+    return base
 
 
 def verdict_of(e):
